@@ -191,6 +191,24 @@ for _pid, (_t, _x) in ROUND3.items():
         _tech, _text, _ref = CLAIMS[_pid]
         CLAIMS[_pid] = (_tech + _t, _text + " " + _x, _ref)
 
+ROUND3B = {
+ "C01": ("", "Round 3: the per-source instant rules of C04, C08 and C11 are lifted (R1.6)."),
+ "C03": ("", "The --dt-after searches compare datetimes only through the window predicates (R3.8)."),
+ "C05": ("", "The compressed-file search agrees with the plain-file search (R5.9); the archive member is chosen by whole-path equality (R5.10); known finding F36: concatenated members are cut short (R5.11)."),
+ "C08": ("", "Time variables of every layout arm are fed by the field their name denotes (R8.11)."),
+ "C09": ("", "The cat rendering writes the MESSAGE value as stored (R9.9)."),
+ "C10": ("", "The parser is not configured to reject chunks (R10.7)."),
+ "C11": ("", "The pre-epoch branch of the mtime conversion complements the sub-second part (R11.9)."),
+ "C14": ("; abstract enumeration of the evaluation order over the nine kinds of (-a, -b) pairs", "The '@'-relative bound is resolved second for every kind of pair (R14.9)."),
+ "C15": ("", "Round 3: the walk loop consumes the walker itself and includes hidden entries (R15.1 clauses); no path test looks at a link itself (R15.4)."),
+ "C18": ("", "Round 3: known finding F35, the interrupt takes effect only when the next message arrives (R18.7)."),
+ "C19": ("", "Round 3: line counts of multi-line kinds come from the data (R19.1); known finding F38, colour escapes are not counted (R19.9)."),
+}
+for _pid, (_t, _x) in ROUND3B.items():
+    if _pid in CLAIMS:
+        _tech, _text, _ref = CLAIMS[_pid]
+        CLAIMS[_pid] = (_tech + _t, _text + " " + _x, _ref)
+
 NA_REASON = {}
 
 checks = []
